@@ -46,6 +46,7 @@ type txWorld struct {
 	finds   []simFinding
 	start   int
 	blocksProcessed map[bitcoin.Hash32]bool
+	safeDelayMS     int
 }
 
 func (w *txWorld) tracef(f string, a ...interface{}) {
@@ -103,7 +104,7 @@ func (w *txWorld) boot(store *verifkit.Store) error {
 	if w.e != nil {
 		oldLog = w.e.log
 	}
-	e, err := newDD(ddOpt{store: store, startHash: w.tip.Ancestor(w.start).Hash, pushDatas: subs, uni: w.uni})
+	e, err := newDD(ddOpt{store: store, startHash: w.tip.Ancestor(w.start).Hash, pushDatas: subs, uni: w.uni, safeDelayMS: w.safeDelayMS})
 	if err != nil {
 		return err
 	}
